@@ -51,7 +51,9 @@ def cases(draw):
     a = draw(st.integers(-4, 0))
     b = a + draw(st.integers(1, 5))
     return {"pair": pair, "pipeline": steps, "disp": [a, b], "grid": draw(st.integers(0, 2)) == 0,
-            "georef": draw(st.booleans()), "nodata": draw(st.sampled_from(["omit", -9999, 0, "NaN"]))}
+            "georef": draw(st.booleans()), "nodata": draw(st.sampled_from(["omit", -9999, 0, "NaN"])),
+            # the right image has its own footprint (same CRS, another origin) in half of the georeferenced cases
+            "georef_right": draw(st.sampled_from([None, [12.5, -3.0], [-40.0, 7.5]]))}
 
 
 def read_products(outdir):
@@ -77,7 +79,8 @@ def body(ctx: Ctx, p: dict) -> None:
     a, b = p["disp"]
     with files.scratch_dir("c19") as d:
         inp_l = {"img": files.write_tiff(os.path.join(d, "left.tif"), left, georef=p["georef"])}
-        inp_r = {"img": files.write_tiff(os.path.join(d, "right.tif"), right, georef=p["georef"])}
+        geo_r = tuple(p["georef_right"]) if (p["georef"] and p.get("georef_right")) else p["georef"]
+        inp_r = {"img": files.write_tiff(os.path.join(d, "right.tif"), right, georef=geo_r)}
         if ml is not None:
             inp_l["mask"] = files.write_tiff(os.path.join(d, "ml.tif"), (ml != 0).astype(np.int16) * np.where(ml == 1, 1, 3).astype(np.int16), dtype="int16")
         if mr is not None:
@@ -112,7 +115,7 @@ def body(ctx: Ctx, p: dict) -> None:
         finally:
             common.save_results = orig
         prods = read_products(out1)
-        in_profile = files.read_tiff(inp_l["img"])[1]
+        in_profiles = {"left": files.read_tiff(inp_l["img"])[1], "right": files.read_tiff(inp_r["img"])[1]}
         # ---- rasters equal the in-memory products
         for side in ("left", "right"):
             ds = captured[side]
@@ -142,8 +145,11 @@ def body(ctx: Ctx, p: dict) -> None:
                 mem = np.moveaxis(ds["confidence_measure"].data, 2, 0)
                 if arr.shape != mem.shape or not np.array_equal(arr, mem.astype(np.float32), equal_nan=True):
                     ctx.violation("C19/confidence-raster-differs", f"{side} {tag}")
-            for key in (f"{side}_disparity", f"{side}_validity_mask"):
+            for key in (f"{side}_disparity", f"{side}_validity_mask", f"{side}_confidence_measure"):
+                if key not in prods:
+                    continue
                 prof = prods[key][1]
+                in_profile = in_profiles[side]  # each side's products carry that side's input georeferencing
                 if p["georef"]:
                     if prof.get("crs") != in_profile.get("crs") or prof.get("transform") != in_profile.get("transform"):
                         ctx.violation("C19/georeferencing-differs", f"{key}: {prof.get('crs')} {prof.get('transform')} {tag}")
@@ -197,6 +203,8 @@ def body(ctx: Ctx, p: dict) -> None:
         classes.append("validation")
     if p["georef"]:
         classes.append("georef")
+        if p.get("georef_right") and has_val:
+            classes.append("right-image-own-footprint")
     if any(c.get("invalid_disparity") == "NaN" for _, c in p["pipeline"]):
         classes.append("invalid=NaN")
     ctx.judged += 1
